@@ -14,7 +14,7 @@ ASSUMPTIONS = [
     "the order of each base point is NOT assumed: n*G = INFINITY is evaluated by the kernel on the generated constants "
     "(CertAff.mul, proved equal to Mathlib's scalar multiplication without any 2-torsion hypothesis)",
 ]
-EXTRA_PROPS = ["NamedPrimes", "Uncond"]   # primality certificates for the field primes / group orders
+EXTRA_PROPS = ["NamedPrimes"]   # the unconditional corollaries are audited per property: Props/Uncond<Cxx>.lean (harness/extra_props.json)   # primality certificates for the field primes / group orders
 LEANCHECK = ["Proofs.NamedChecks", "Proofs.NamedCurves", "Proofs.CertAffine", "Proofs.PrimeCert"] + sorted(
     "Proofs." + f[:-5] for f in os.listdir(os.path.join(common.LEAN, "Proofs")) if f.startswith("NamedPrimeCerts") and f.endswith(".lean"))
 
